@@ -78,7 +78,8 @@ def gen_enum(rng, idx, n_enabled, placement, generics, kinds, robust=False):
         if tricky and vi < len(tricky):
             ident = tricky[vi]
         variants.append(dict(ident=ident, kind=kind, tys=tys, disabled=dis, extra=extra,
-                             noise=[] if robust or len(mask) > 300 else noise.variant_noise(rng, 0.25, True, extra)))
+                             plain=False,
+                             noise=[] if len(mask) > 300 else noise.variant_noise(rng, 0.25, True, extra)))
     # every type parameter must be used by some variant (rustc E0392)
     want = {"none": [], "T": ["T"], "TW": ["T"], "TK": ["T"], "TU": ["T", "U"]}[generics]
     for g in want:
@@ -126,6 +127,8 @@ def render_variant(v):
     # noise goes before, between and after the strum attributes
     import random as _r
     rr = _r.Random(v["ident"] + str(len(v.get("noise", []))))
+    if not v.get("plain"):
+        lines = noise.fold_disabled(rr, lines)
     for l in noise.place(rr, lines, v.get("noise", [])):
         attrs += "    %s\n" % l
     if v["kind"] == "unit":
